@@ -1,6 +1,9 @@
 package main
 
-import "fmt"
+import (
+	"fmt"
+	"strings"
+)
 
 // D7: nullable bodies — the programs whose termination depends on the
 // zero-width-iteration guard.
@@ -33,6 +36,10 @@ func d7Fixed() []*Prog {
 		{star(or(seq(), a)), a},
 		{star(or(ls, seq(a, ls))), a},
 		{loop(2, -1, true, opt(a)), anchor("file end", false)},
+		{capt(opt(a), "x"), lit("b"), star(ref("x"))},
+		{capt(opt(a), "x"), star(ref("x")), lit("b")},
+		{capt(star(a), "x"), lit("b"), loop(1, -1, false, ref("x")), lit("b")},
+		{capt(seq(), "x"), loop(0, -1, true, ref("x")), a},
 	}
 	for _, b := range bodies {
 		out = append(out, &Prog{Body: b})
@@ -45,7 +52,18 @@ func d7Fixed() []*Prog {
 var d7Named = []string{
 	"at least 1 (maybe 'a') named r", "at least 2 (line start) named r 'a'", "at least 0 (at least 1 (maybe 'a') named i) named o",
 	"between 1 and 2 (at least 0 line start) named r", "at least 1 (not in 'a') named n", "at least 1 (maybe ('a' = x)) named r x",
+	"@/(a?)b\\1*/", "@/(a*)(b?)(?:\\1\\2)*c/", "@/(?<n>a?)\\k<n>+b/",
 	"at least 1 whole line", "at least 0 (whole word or 'a')", "at least 0 (not whole file)", "at least 0 @/a*/", "@/(a*)*/", "@/(a?|\\b)+x/", "@/(^|a)*$/",
+}
+
+// bounded process-code loops (every one exits after at most matchLength+3 passes)
+var c10ProcessLoops = []string{
+	"set i to 0 loop set i to i + 1 if i < 3 then continue end break end return i ",
+	"set i to 0 set s to '' loop if i >= matchLength then break end set i to i + 1 if i % 2 == 0 then continue end set s to s + 'x' end return s ",
+	"set i to 0 loop set i to i + 1 loop if i > 1 then break end set i to i + 1 continue end if i < 5 then continue end break end return i ",
+	"set i to 0 loop set i to i + 1 if i < 4 then continue else break end end return i ",
+	"set i to 5 loop set i to i - 1 if i > 0 then if i % 2 == 1 then continue end end if i <= 0 then break end end return i ",
+	"set s to match loop if s == '' then break end set s to tail s continue end return s ",
 }
 
 const stepBudgetC10 = 5_000_000
@@ -153,6 +171,39 @@ func runC10(c *Ctx) {
 			if c.Unit(func() string { return src }) {
 				c.Count("programs", 1)
 				termUnit(c, src, txts, hasNullableLoop(body))
+			}
+		}
+	}
+	g4 := gramD4(false)
+	for n := 2; n <= c.Pick(5, 5); n++ {
+		if !c.Level("D4:n=" + itoa(n)) {
+			return
+		}
+		for _, raw := range g4.Seqs(n) {
+			body := instantiate(raw, true)
+			if body == nil {
+				continue
+			}
+			src := "find all " + renderSeq(body)
+			if c.Unit(func() string { return src }) {
+				c.Count("programs", 1)
+				termUnit(c, src, texts("ab", 4), hasNullableLoop(body))
+			}
+		}
+	}
+	if c.Level("process-code loops") {
+		for _, body := range c10ProcessLoops {
+			for _, kind := range []string{"transform", "predicate"} {
+				src := "set f to transform " + body + " end\nreplace all at least 1 any with f"
+				if kind == "predicate" {
+					src = "set p to pattern at least 1 any begin " + body + " return true end\nfind all p"
+					src = strings.Replace(src, "return i ", "set r to i ", -1)
+					src = strings.Replace(src, "return s ", "set r to s ", -1)
+				}
+				if c.Unit(func() string { return src }) {
+					c.Count("programs", 1)
+					termUnit(c, src, []string{"a", "abc", "12345678"}, true)
+				}
 			}
 		}
 	}
